@@ -8,7 +8,7 @@ pat=${1:-}
 for d in seeded/*${pat}*/; do
   id=$(basename "$d")
   prop=${id%%-*}
-  patch="$d/patch.diff"
+  patch="$PWD/${d%/}/patch.diff"
   [ -f "$patch" ] || continue
   t0=$(date +%s)
   out=$(SEED_TIER=${SEED_TIER:-quick} lib/seedtest.sh "$patch" "$prop" 2>&1)
